@@ -331,3 +331,13 @@ package dnsdata
 //@ updates ntok, tokK, tokS, tokB, tokN
 //@ flag skip frame
 //@ ensures[fields] err == nil && tlit(old(ntok), "8") && tdom(old(ntok) + 1, r.dom) && tsep(old(ntok) + 2) && tlmap(old(ntok) + 3, r.lmap[0], r.lmap[1]) && ntok == old(ntok) + 4
+
+// ---- C07: the line scanner of the parallel parser ---------------------------------------------------------------
+// Every accepted line is handed to the workers as a complete private copy: the scanner reuses its buffer for the
+// next line, and a worker decodes the bytes it was sent -- all of them, and only them.
+//@ func parse@scan
+//@ region funclit#1
+//@ flag skip frame
+//@ flag chanops abstract
+//@ before send#0 assert[whole-copy] len(newLine) == len(line) && seqeq(newLine, line)
+//@ before send#0 assert[private] fresh(newLine) && len(line) >= 2
